@@ -589,6 +589,9 @@ impl W3Exec {
         if n as u64 > cfg.step_size {
             self.stats.fault("step_overflow_batch_gt_step_size");
         }
+        if n as u64 == cfg.step_size {
+            self.stats.probe("batch_equals_step_size");
+        }
         if let Err(msg) = r {
             return Err(self.classify_step_panic(msg, &steered, start));
         }
